@@ -16,16 +16,36 @@ import (
 //
 //	obs(s) = init + [s self-complementary]*sym + term(last letter of s) + sum of pair(s[i], s[i+1])
 //
-// init and term are identifiable only up to a common shift; the normalisation is term('C') = 0.
-// Self-complementarity is decided by the exported transform.ReverseComplement, as the code does.
-// Domain: every byte 0..127 that strings.ToUpper leaves unchanged (SantaLucia upper-cases
-// its argument first, so keys containing a..z are unreachable).
+// Only inputs INSIDE the property's quantifier are used for the part the theorems rest on: A/C/G/T
+// sequences of length 2 and 3 at positive concentrations (a sequence of odd length is never
+// self-complementary).  init and term are identifiable only up to a common shift; the
+// normalisation is term('C') = 0.
+//
+//	pair(CC)  = obs(CCC) - obs(CC)                init     = obs(CC) - pair(CC)
+//	pair(YC)  = obs(YCC) - init - pair(CC)        pair(CY) = obs(CYC) - init - pair(YC)
+//	term(Y)   = obs(CCY) - init - pair(CC) - pair(CY)
+//	pair(XY)  = obs(CXY) - init - term(Y) - pair(CX)
+//	sym       = obs(CG)  - init - term(G) - pair(CG)
+//
+// The same formulas are then evaluated for every other byte 0..127 that strings.ToUpper leaves
+// unchanged (SantaLucia upper-cases its argument first), with self-complementarity decided by the
+// exported transform.ReverseComplement; whatever the code does there (a value, NaN, a panic) is
+// recorded as data or skipped, never an extraction failure: that part is outside the property.
 
 type hs struct{ h, s float64 }
 
-func obs(seq string) hs {
+// obs returns the observation and whether it is usable (no panic, finite values).
+func obs(seq string) (v hs, ok bool) {
+	defer func() {
+		if p := recover(); p != nil {
+			v, ok = hs{}, false
+		}
+	}()
 	_, dh, ds := primers.SantaLucia(seq, 1.0, 1.0, 0.0)
-	return hs{dh, ds}
+	if math.IsNaN(dh) || math.IsNaN(ds) || math.IsInf(dh, 0) || math.IsInf(ds, 0) {
+		return hs{}, false
+	}
+	return hs{dh, ds}, true
 }
 
 func (a hs) sub(b hs) hs { return hs{a.h - b.h, a.s - b.s} }
@@ -55,61 +75,123 @@ func pair10(v hs) (int, int, error) {
 
 func init() {
 	extractor.RegisterGen("NNTable", func() (string, error) {
-		if selfComp("C") || selfComp("CC") || selfComp("CCG") || !selfComp("CG") {
-			return "", fmt.Errorf("probe sequences C, CC, CCG, CG do not have the expected self-complementarity")
+		isBase := func(x byte) bool { return x == 'A' || x == 'C' || x == 'G' || x == 'T' }
+		if selfComp("CC") || selfComp("CCG") || !selfComp("CG") {
+			return "", fmt.Errorf("probe sequences CC, CCG, CG do not have the expected self-complementarity")
 		}
-		ini := obs("C")
-		// obs(CG) = init + sym + term(G) + pair(CG); obs(CCG) = init + term(G) + pair(CC) + pair(CG); obs(CC) = init + pair(CC)
-		sym := obs("CG").sub(obs("CCG")).sub(ini)
-		cc := obs("CC")
-		sym = hs{sym.h + cc.h, sym.s + cc.s}
+		var sym hs
+		// obsAdj: observation with the symmetry term removed when the sequence is self-complementary
+		// (never the case for the odd-length A/C/G/T probes)
+		obsAdj := func(seq string) (hs, bool) {
+			v, ok := obs(seq)
+			if ok && selfComp(seq) {
+				v = v.sub(sym)
+			}
+			return v, ok
+		}
+		must := func(seq string) (hs, error) {
+			v, ok := obs(seq)
+			if !ok {
+				return hs{}, fmt.Errorf("SantaLucia(%q) at 1 M Na gives no finite (dH, dS)", seq)
+			}
+			return v, nil
+		}
+		ccc, e1 := must("CCC")
+		cc, e2 := must("CC")
+		if e1 != nil || e2 != nil {
+			return "", fmt.Errorf("%v %v", e1, e2)
+		}
+		pCC := ccc.sub(cc)
+		ini := cc.sub(pCC)
+		pairTo := map[byte]hs{'C': pCC}   // pair(YC)
+		pairFrom := map[byte]hs{'C': pCC} // pair(CY)
+		term := map[byte]hs{'C': {}}
+		known := map[byte]bool{'C': true}
 		var dom []byte
 		for b := 0; b < 128; b++ {
 			if strings.ToUpper(string(rune(b))) == string(rune(b)) {
 				dom = append(dom, byte(b))
 			}
 		}
-		term := map[byte]hs{}
+		// per letter Y: pair(YC), pair(CY), term(Y)
+		letter := func(y byte) bool {
+			ycc, o1 := obsAdj(string([]byte{y, 'C', 'C'}))
+			cyc, o2 := obsAdj(string([]byte{'C', y, 'C'}))
+			ccy, o3 := obsAdj(string([]byte{'C', 'C', y}))
+			if !(o1 && o2 && o3) {
+				return false
+			}
+			pairTo[y] = ycc.sub(ini).sub(pCC)
+			pairFrom[y] = cyc.sub(ini).sub(pairTo[y])
+			term[y] = ccy.sub(ini).sub(pCC).sub(pairFrom[y])
+			known[y] = true
+			return true
+		}
+		for _, y := range []byte("AGT") {
+			if !letter(y) {
+				return "", fmt.Errorf("no finite observation for the probes of letter %c", y)
+			}
+		}
+		cg, e3 := must("CG")
+		if e3 != nil {
+			return "", e3
+		}
+		sym = cg.sub(ini).sub(term['G']).sub(pairFrom['G'])
+		for _, y := range dom {
+			if !isBase(y) {
+				letter(y) // best effort, outside the property
+			}
+		}
+		// pair(XY) = obs(CXY) - init - term(Y) - pair(CX)
+		pairOf := func(x, y byte) (hs, bool) {
+			if !known[x] || !known[y] {
+				return hs{}, false
+			}
+			v, ok := obsAdj(string([]byte{'C', x, y}))
+			if !ok {
+				return hs{}, false
+			}
+			return v.sub(ini).sub(term[y]).sub(pairFrom[x]), true
+		}
+
 		var b strings.Builder
-		b.WriteString("/- REGENERATED by harness/cmd/extract-primers from primers.SantaLucia evaluated (at Na = 1 M, Mg = 0, where the\n" +
-			"   salt term vanishes) on every one- and two-byte string over the bytes 0..127 that ToUpper leaves unchanged.\n" +
-			"   Values are (dH, dS) in TENTHS (dH: 0.1 kcal/mol, dS: 0.1 cal/(mol K)).  nnInit = observation of \"C\";\n" +
-			"   nnSymmetry = obs(CG) - obs(CCG) + obs(CC) - obs(C); nnTerminal: last bytes with a non-zero terminal term\n" +
-			"   (normalised by term('C') = 0); nnRows: byte pairs with a non-zero pair term.  Absent = zero.\n" +
+		b.WriteString("/- REGENERATED by harness/cmd/extract-primers from primers.SantaLucia evaluated at Na = 1 M, Mg = 0 (where the salt\n" +
+			"   term vanishes) on A/C/G/T sequences of length 2 and 3 (inside the property's quantifier): see the formulas in\n" +
+			"   harness/cmd/extract-primers/gen.go.  Values are (dH, dS) in TENTHS (dH: 0.1 kcal/mol, dS: 0.1 cal/(mol K)).\n" +
+			"   nnInit: initiation; nnSymmetry: self-complementarity term; nnTerminal: last letters with a non-zero terminal term\n" +
+			"   (normalised by term('C') = 0); nnRows: letter pairs with a non-zero pair term.  Absent = zero.\n" +
 			"   The property quantifies over A/C/G/T only: nnTerminal / nnRows hold the entries over those four letters (the\n" +
-			"   theorems use nothing else); entries involving any other byte go to nnOtherTerminal / nnOtherRows, which only the\n" +
-			"   out-of-domain correspondence reads and which are capped at 64 entries each (nnOther*Count = the true number),\n" +
-			"   so that a change of behaviour on non-nucleotide bytes can neither break a proof nor blow up this file.  Do not edit. -/\n")
+			"   theorems use nothing else).  The same probes with any other byte 0..127 (ToUpper-stable) give nnOtherTerminal /\n" +
+			"   nnOtherRows, which only the out-of-domain correspondence reads: capped at 64 entries each, nnOther*Count = number of\n" +
+			"   non-zero or unobservable (NaN / panic / not a multiple of 0.1) entries; a change of behaviour on non-nucleotide\n" +
+			"   input can neither break a proof nor fail the extraction nor blow up this file.  Do not edit. -/\n")
 		b.WriteString("namespace PolyVerif.Gen\n\n")
 		ih, is, err := pair10(ini)
 		if err != nil {
-			return "", err
+			return "", fmt.Errorf("initiation: %v", err)
 		}
 		sh, ss, err := pair10(sym)
 		if err != nil {
-			return "", err
+			return "", fmt.Errorf("symmetry: %v", err)
 		}
 		fmt.Fprintf(&b, "def nnInit : Int × Int := (%d, %d)\n\ndef nnSymmetry : Int × Int := (%d, %d)\n\n", ih, is, sh, ss)
-		isBase := func(x byte) bool { return x == 'A' || x == 'C' || x == 'G' || x == 'T' }
 		const otherCap = 64
 		var termIn, termOut, rowsIn, rowsOut []string
 		nTermOut, nRowsOut := 0, 0
 		for _, x := range dom {
-			t := obs(string([]byte{x})).sub(ini)
-			if selfComp(string([]byte{x})) {
-				t = t.sub(sym)
-			}
-			th, ts, err := pair10(t)
-			if err != nil {
-				if isBase(x) {
-					return "", fmt.Errorf("terminal %d: %v", x, err)
-				}
-				// a non-nucleotide byte whose term is not a multiple of 0.1: outside the property, treated as absent
-				term[x] = hs{}
+			if !known[x] {
 				nTermOut++
 				continue
 			}
-			term[x] = t
+			th, ts, err := pair10(term[x])
+			if err != nil {
+				if isBase(x) {
+					return "", fmt.Errorf("terminal %c: %v", x, err)
+				}
+				known[x] = false
+				nTermOut++
+				continue
+			}
 			if th != 0 || ts != 0 {
 				e := fmt.Sprintf("\n  (%d, (%d, %d))", x, th, ts)
 				if isBase(x) {
@@ -124,16 +206,19 @@ func init() {
 		}
 		for _, x := range dom {
 			for _, y := range dom {
-				s := string([]byte{x, y})
 				in := isBase(x) && isBase(y)
-				t := obs(s).sub(ini).sub(term[y])
-				if selfComp(s) {
-					t = t.sub(sym)
+				t, ok := pairOf(x, y)
+				if !ok {
+					if in {
+						return "", fmt.Errorf("pair %c%c: no finite observation", x, y)
+					}
+					nRowsOut++
+					continue
 				}
 				th, ts, err := pair10(t)
 				if err != nil {
 					if in {
-						return "", fmt.Errorf("pair %d,%d: %v", x, y, err)
+						return "", fmt.Errorf("pair %c%c: %v", x, y, err)
 					}
 					nRowsOut++
 					continue
